@@ -61,6 +61,7 @@ func (p *Pegnet) Init() error {
 	if err != nil {
 		return err
 	}
+	db = verifWrapDB(db, openmode)
 	p.DB = db
 	err = p.createTables()
 	if err != nil {
